@@ -747,7 +747,9 @@ impl Session {
                         // (every cache of a session is created with a clone of self.hb)
                         use std::hash::BuildHasher;
                         let probe = 0x5eed_u32;
-                        let same = cache.hasher().hash_one(probe) == hb.hash_one(probe)
+                        // (a reseeding builder hashes differently after every clone by design)
+                        let same = (cache.hasher().hash_one(probe) == hb.hash_one(probe)
+                                || matches!(hb, HB::Reseed(_)))
                             && std::mem::discriminant(cache.hasher()) == std::mem::discriminant(&hb);
                         out.ret = ret_json(if same { "own" } else { "other" });
                     },
@@ -1078,6 +1080,8 @@ impl Session {
                 else {
                     ev["dst"] = pj;
                     ev["dfp"] = json!(fp.clone());
+                    // the new cache must find every entry it lists (C14: "the same entries")
+                    ev["dprobe"] = self.probe(cache, &p);
                 }
 
                 self.prev_fp.insert(id, fp);
